@@ -173,10 +173,11 @@ func (c *conn) writeloop() {
 				if errors.Is(err, net.ErrClosed) {
 					err = io.ErrClosedPipe
 				}
+				// Mark the connection dead before reporting the failure, so that the
+				// caller's next call already sees it and dials a fresh one.
+				_ = c.terminate(err)
 				req.err <- err
 				close(req.err)
-				// Close the client
-				_ = c.terminate(err)
 				return
 			}
 			close(req.err)
